@@ -89,6 +89,34 @@ def check(repo: Repo, rep: Report) -> None:
     own = [s for s in sites(rsub) if isinstance(s.node, ast.Assign) and method_call(s.node.value, srcs, "subscribe")
            and u(s.node.value.args[0]) == rsub.params[0] and isinstance(s.node.targets[0], ast.Name)]
     rep.ob("N2-ref-count", rsub, "the subscriber is subscribed to the connectable", bool(own), "the subscriber is not subscribed to the shared source")
+    def decided_before(fn, conn_sites, own_sites, counters):
+        """the decision to connect (a test of the subscriber counter) is evaluated before the subscriber is subscribed:
+        a subject that emits on subscribe lets another subscriber arrive (and bump the counter) inside that call"""
+        if not conn_sites or not own_sites:
+            return False
+        first_sub = min(x.index for x in own_sites)
+        for c in conn_sites:
+            ok_ = False
+            for e, p in c.ctx.guards:
+                if not any(isinstance(x, ast.Name) and x.id in counters for x in ast.walk(e)):
+                    continue
+                # where was this atom evaluated?  in a local's definition, or in the if-statement itself
+                ev_at = None
+                for d in sites(fn):
+                    if isinstance(d.node, (ast.Assign, ast.AnnAssign)) and d.node.value is not None and any(y is e for y in ast.walk(d.node.value)):
+                        ev_at = d.index
+                    if isinstance(d.node, (ast.If, ast.IfExp)) and any(y is e for y in ast.walk(d.node.test)):
+                        ev_at = d.index
+                if ev_at is not None and ev_at < first_sub:
+                    ok_ = True
+            if not ok_:
+                return False
+        return True
+    rep.ob("N2-ref-count", rsub, "the connect decision (counter test) is taken before the subscriber is subscribed",
+           decided_before(rsub, conn, own, {cnt}),
+           "ref_count tests its subscriber counter only after subscribing the observer: a subject that emits during subscribe "
+           "(publish_value, replay) lets a second subscriber arrive inside that call -- the counter is then already 2 for both and "
+           "nobody connects")
     own_vars = {s.node.targets[0].id for s in own}
     dec = [s for s in sites(rdis) if isinstance(s.node, ast.AugAssign) and cell_name(s.node.target) == cnt and isinstance(s.node.op, ast.Sub) and not s.ctx.branch]
     dcon = [s for s in sites(rdis) if isinstance(s.node, ast.Call) and isinstance(s.node.func, ast.Attribute) and s.node.func.attr == "dispose"
@@ -139,6 +167,9 @@ def check(repo: Repo, rep: Report) -> None:
                 ok = True
     rep.ob("N3-auto-connect", asub, "connect when the incremented counter equals subscriber_count", ok,
            "auto_connect does not connect exactly when the n-th subscriber arrives")
+    own2 = [s for s in sites(asub) if isinstance(s.node, ast.Assign) and method_call(s.node.value, selfs, "subscribe")]
+    rep.ob("N3-auto-connect", asub, "the connect decision is taken before the subscriber is subscribed", decided_before(asub, c2, own2, set(cnts2)),
+           "auto_connect tests its subscriber counter only after subscribing the observer (a re-entrant subscriber is then counted first)")
     rep.ob("N3-auto-connect", asub, "the subscriber is subscribed to the connectable", any(
         isinstance(s.node, ast.Assign) and method_call(s.node.value, selfs, "subscribe") and u(s.node.value.args[0]) == asub.params[0] for s in sites(asub)),
         "auto_connect does not subscribe its subscribers")
